@@ -4,9 +4,13 @@ from . import core_targets as K
 LEVEL = 'proof'
 TAGS = ('C24', 'C01', 'C03', 'termination', 'tree', 'wf')
 TRUSTED = ['the WEAKENED handler contract: an initial transition may name any state of the chart (not nested, or the state '
-           'itself) and an offer may return None; everything else as in DESIGN 5.2',
+           'itself), an offer may return None, and a state may answer the super search with None leaving the cursor where it '
+           'was; everything else as in DESIGN 5.2',
            'the chart is finite (some bound DMAX on depth exists)', 'tree lemmas (discharged obligations)']
-ASSUMPTIONS = ['exactly the malformations of the property are admitted; other violations of the handler contract are not']
+ASSUMPTIONS = ['exactly the malformations of the property are admitted; other violations of the handler contract are not',
+               'no state of the active configuration gives no status (None) to the super search: pre-condition of '
+               'dispatch[weak] and trans_[weak]; start_at/dispatch refuse to enter such a state (proved), the quantified '
+               're-establishment over all ancestors is exercised natively only']
 EXPLANATION = ('start_at/init and dispatch are verified a second time under the weakened contract, with their own loop '
                'invariants: (1) termination -- every loop has a variant, the outer init loops use DMAX - depth; (2) the '
                'monitor obligations still hold at every entry/exit/init call, i.e. no wrong state is entered before the '
